@@ -238,6 +238,15 @@ def validate_blob_all_or_error(crate, N=3):
         names = [e[1] for e in evs]
         if not P.prove(ex, res, o, z3.Implies(isok, z3.And(*oks) if oks else z3.BoolVal(False)), "Ok => every read succeeded"):
             break
+        bad_arg = False
+        for e in evs:
+            if e[1] == "BlobReader::read_record":
+                sk = e[2][1].t
+                if not P.prove(ex, res, o, z3.Not(sk) if z3.is_bool(sk) else sk == 0, "validation never skips a damaged record (read_record(skip_wrong = false))"):
+                    bad_arg = True
+                    break
+        if bad_arg:
+            break
         if not P.prove(ex, res, o, z3.Implies(isok, z3.BoolVal(len(names) >= 2 and names[0] == "BlobReader::from_path" and names[1] == "BlobReader::read_header")),
                        "Ok => the file was opened and the blob header validated first"):
             break
@@ -411,8 +420,13 @@ def recovery_copies_prefix(crate, N=3):
     fn = crate.find(r"(^|::)process_blob_with$")
     res.functions = ["tools::utils::process_blob_with + closure", "BlobReader::is_eof"]
     res.bounds = "<= %d records before the end of the input (loop unwound %d times, deeper paths dropped), every outcome of reader / writer / preprocessing" % (N, N + 1)
+    same_path = z3.Bool("input_is_output")
+
+    def h_path_cmp(ex_, st_, frame, t, nf, args, dty):
+        return [(Sym(same_path if nf.endswith("::eq") else z3.Not(same_path), "bool"), None)]
     ex = P.mk_executor(crate, cap=2, loop_bound=N + 1, inline=INLINE_TOOLS + [r"^BlobReader::is_eof$"],
-                       havoc=[r"^<[PQ] as AsRef<.*>>::as_ref$", r"^<(std::path::)?Path as PartialEq>::eq$"])
+                       extra_summaries=[(r"^<(std::path::)?Path as PartialEq>::(eq|ne)$", h_path_cmp)],
+                       havoc=[r"^<[PQ] as AsRef<.*>>::as_ref$"])
     ex.unwind_assume = True
     st = State()
     every = z3.BitVec("validate_every", 64)
@@ -467,6 +481,11 @@ def recovery_copies_prefix(crate, N=3):
             continue
         isok = ex.get_discr(o, o.result).t == BV64(0)
         evs = [e for e in o.events if e[0] == "call"]
+        opened = [e for e in evs if e[1] in ("BlobReader::from_path", "BlobWriter::from_path")]
+        if not P.prove(ex, res, o, z3.Implies(same_path, z3.And(z3.Not(isok), z3.BoolVal(not opened))), "recovering a file into itself is refused before anything is opened (the writer truncates)"):
+            break
+        if not P.prove(ex, res, o, z3.Implies(z3.Not(same_path), z3.BoolVal(bool(opened))), "different paths: the input is opened"):
+            break
         reads = [e for e in evs if e[1] == "BlobReader::read_record"]
         pres = [e for e in evs if e[1] == "preprocess" and isinstance(e[2][0], Obj) and ("ghost", "n") in e[2][0].fields]
         writes = [e for e in evs if e[1] == "BlobWriter::write_record"]
@@ -519,3 +538,102 @@ def recovery_copies_prefix(crate, N=3):
             P.cover(ex, res, o, z3.And(isok, z3.Not(okd(reads[-1])), z3.BoolVal(len(writes) >= 1)), "intact prefix copied, stopped at the damage")
         P.cover(ex, res, o, z3.And(z3.Not(isok), z3.BoolVal(len(writes) >= 1)), "write or validation failure reported")
     return P.finish(ex, res, ["two or more records copied to the end of the input", "intact prefix copied, stopped at the damage", "write or validation failure reported"])
+
+
+def writer_revalidates(crate, N=2):
+    """C16: BlobWriter::validate_written_records: with the cache on and non-empty, the records written since the last
+    validation are read back from the output file, starting at written - written_cached, one per cached record, and Ok is
+    returned only if every one was read back successfully and compared EQUAL to the cached record; the write position is
+    restored afterwards.  With no cache / an empty cache nothing is read and Ok is returned."""
+    res = P.ObResult("writer_revalidates[N<=%d]" % N)
+    fn = crate.method("BlobWriter", "validate_written_records")
+    res.functions = ["BlobWriter::validate_written_records"]
+    res.bounds = "cache of <= %d records, arbitrary counters, every outcome of seek / read-back / comparison" % N
+    eqs = []
+
+    def h_rec_ne(ex_, st_, frame, t, nf, args, dty):
+        i = len([e for e in st_.events if e[0] == "reccmp"])
+        same = z3.Bool("record_equal_%d" % i)
+        tags = []
+        for v in (args[0], args[1]):
+            for _ in range(4):
+                if isinstance(v, Ref):
+                    v = ex_.read_path(st_, v.cell, v.proj)
+            if isinstance(v, Obj) and ("ghost", "n") in v.fields:
+                tags.append(z3.simplify(v.fields[("ghost", "n")].t).as_long())
+        st_.events.append(("reccmp", nf, same, tags))
+        return [(Sym(z3.Not(same) if nf.endswith("::ne") else same, "bool"), None)]
+
+    def h_seek(ex_, st_, frame, t, nf, args, dty):
+        r = ex_.fresh(dty, st_, "seek")
+        pos = args[1]
+        st_.events.append(("seek", nf, pos, r))
+        return [(r, None)]
+    ex = P.mk_executor(crate, cap=N + 1, loop_bound=N + 2, inline=INLINE_TOOLS,
+                       extra_summaries=[(r"^<(&)?(record::record::)?Record as PartialEq(<.*>)?>::(eq|ne)$", h_rec_ne), (r"^<(std::fs::)?File as (std::io::)?Seek>::seek$", h_seek)],
+                       havoc=[r"^(std::fs::)?File::try_clone$"])
+    st = State()
+    w = Obj("tools::blob_writer::BlobWriter")
+    written, cached = z3.BitVec("written", 64), z3.BitVec("written_cached", 64)
+    st.pc.append(z3.ULE(cached, written))
+    w.fields[(None, crate.field_index("BlobWriter", "written"))] = Sym(written, "u64")
+    w.fields[(None, crate.field_index("BlobWriter", "written_cached"))] = Sym(cached, "u64")
+    cache = Obj("std::option::Option<Vec<record::record::Record>>")
+    has = z3.Bool("cache_enabled")
+    cache.discr = Sym(z3.If(has, BV64(1), BV64(0)), "isize")
+    n = z3.BitVec("cached_records", 64)
+    st.pc.append(z3.ULE(n, BV64(N)))
+    recs = []
+    for i in range(N):
+        r = Obj("record::record::Record"); r.fields[("ghost", "n")] = Sym(BV64(i), "u64")
+        recs.append(r)
+    cache.fields[("Some", 0)] = VecV("record::record::Record", N, Sym(n, "usize"), recs)
+    w.fields[(None, crate.field_index("BlobWriter", "cache"))] = cache
+    wc = st.new_cell(w)
+    outs = _sync_run(ex, st, fn, [Ref(wc, (), True, "&mut BlobWriter")])
+    res.paths = len(outs)
+    for o in outs:
+        if o.status in ("infeasible", "unwind"):
+            continue
+        if o.status != "returned":
+            if not P.prove(ex, res, o, z3.BoolVal(False), "no panic (%s)" % o.note):
+                break
+            continue
+        isok = ex.get_discr(o, o.result).t == BV64(0)
+        reads = [e for e in o.events if e[0] == "call" and e[1] == "BlobReader::read_single_record"]
+        cmps = [e for e in o.events if e[0] == "reccmp"]
+        seeks = [e for e in o.events if e[0] == "seek"]
+        active = z3.And(has, n != BV64(0))
+        if not P.prove(ex, res, o, z3.Implies(z3.Not(active), z3.And(isok, z3.BoolVal(not reads))), "no cache or empty cache: Ok, nothing read"):
+            break
+        if not P.prove(ex, res, o, z3.Implies(z3.And(active, isok), n == BV64(len(reads))), "Ok => one read-back per cached record"):
+            break
+        if not P.prove(ex, res, o, z3.Implies(isok, z3.BoolVal(len(cmps) == len(reads))), "Ok => every record read back was compared"):
+            break
+        bad = False
+        for i, c in enumerate(cmps):
+            r_ok = ex.get_discr(o, reads[i][3]).t == BV64(0)
+            if not P.prove(ex, res, o, z3.Implies(isok, z3.And(r_ok, c[2])), "Ok => record %d was read back and equals the cached one" % i):
+                bad = True; break
+            tags = c[3]
+            if tags != [i]:
+                res.status = "violated"; res.detail = "comparison %d does not involve cached record %d (tags %s)" % (i, i, tags); bad = True; break
+        if bad:
+            break
+        if seeks:
+            p0 = seeks[0][2]
+            p0t = p0.fields[(None, 0)].t if isinstance(p0, Obj) and (None, 0) in p0.fields else None
+            if p0t is not None and not P.prove(ex, res, o, p0t == written - cached, "read-back starts at written - written_cached"):
+                break
+            if len(seeks) >= 2:
+                p1 = seeks[-1][2]
+                p1t = p1.fields[(None, 0)].t if isinstance(p1, Obj) and (None, 0) in p1.fields else None
+                if p1t is not None and not P.prove(ex, res, o, z3.Implies(isok, p1t == written), "the write position is restored"):
+                    break
+            if not P.prove(ex, res, o, z3.Implies(z3.And(active, isok), z3.BoolVal(len(seeks) >= 2)), "Ok => positioned for reading and back for writing"):
+                break
+        P.cover(ex, res, o, z3.And(isok, n == BV64(N)), "all cached records re-validated")
+        if cmps:
+            P.cover(ex, res, o, z3.And(z3.Not(isok), z3.Not(cmps[-1][2])), "mismatch reported")
+        P.cover(ex, res, o, z3.And(isok, z3.Not(has)), "validation off")
+    return P.finish(ex, res, ["all cached records re-validated", "mismatch reported", "validation off"])
